@@ -1,3 +1,4 @@
+import ButlerModel.Props.C03
 import ButlerModel.Props.C04
 import ButlerModel.Props.C11
 import ButlerModel.Props.C12
